@@ -710,3 +710,241 @@ Proof.
     destruct v as [| | |b| | |]; try discriminate.
     destruct b; [exists (Some l_yes)|exists None]; split; reflexivity.
 Qed.
+
+(* ================================================================== 4. a setter, then its getter *)
+(* ---- list laws ---- *)
+Lemma count_key_app k a b : count_key k (a ++ b) = count_key k a + count_key k b.
+Proof. unfold count_key. rewrite filter_app, app_length. reflexivity. Qed.
+Lemma count_key_none k p : l_get p k = None <-> count_key k p = 0.
+Proof.
+  unfold count_key. induction p as [|[n v] r IH]; [split; reflexivity|]. cbn [l_get filter fst].
+  destruct (str_eqb n k); [split; discriminate|exact IH].
+Qed.
+
+Lemma l_remove_app p q k : l_remove (p ++ q) k = l_remove p k ++ l_remove q k.
+Proof. unfold l_remove. apply filter_app. Qed.
+Lemma l_remove_cons_same k v r : l_remove ((k, v) :: r) k = l_remove r k.
+Proof. unfold l_remove. cbn [filter fst]. rewrite str_eqb_refl. reflexivity. Qed.
+
+Theorem l_set_others p k v : l_remove (l_set p k v) k = l_remove p k.
+Proof.
+  destruct (l_set_spec p k v) as [(a & x & b & E1 & E2 & E3)|[E1 E2]].
+  - rewrite E3, E1, !l_remove_app, !l_remove_cons_same. reflexivity.
+  - rewrite E2, l_remove_app. unfold l_remove at 2. cbn [filter fst]. rewrite str_eqb_refl. cbn [negb]. apply app_nil_r.
+Qed.
+Lemma count_key_cons_same k v r : count_key k ((k, v) :: r) = S (count_key k r).
+Proof. unfold count_key. cbn [filter fst]. rewrite str_eqb_refl. reflexivity. Qed.
+Theorem l_set_count p k v : count_key k (l_set p k v) = Nat.max 1 (count_key k p).
+Proof.
+  destruct (l_set_spec p k v) as [(a & x & b & E1 & E2 & E3)|[E1 E2]].
+  - rewrite E3, E1, !count_key_app, !count_key_cons_same. apply count_key_none in E2. rewrite E2. reflexivity.
+  - rewrite E2, count_key_app, count_key_cons_same. apply count_key_none in E1. rewrite E1. reflexivity.
+Qed.
+Theorem l_remove_count p k : count_key k (l_remove p k) = 0.
+Proof. apply count_key_none. apply l_remove_spec. Qed.
+Theorem l_remove_idem p k : l_remove (l_remove p k) k = l_remove p k.
+Proof.
+  unfold l_remove. induction p as [|[n v] r IH]; [reflexivity|]. cbn [filter fst].
+  destruct (str_eqb n k) eqn:E; cbn [negb]; [exact IH|]. cbn [filter fst]. rewrite E. cbn [negb]. rewrite IH. reflexivity.
+Qed.
+Lemma l_get_remove_other p k k' : str_eqb k' k = false -> l_get (l_remove p k) k' = l_get p k'.
+Proof. intros H. apply l_remove_spec. exact H. Qed.
+
+(* the getter of a plain row only looks at its field *)
+Lemma getter_LI_field c g arg p f : row_field g arg = Some f ->
+  match r_op g with OGet | OGetParam => true | _ => false end = true ->
+  getter c LI g arg p = decode c (r_codec g) (l_get p f).
+Proof.
+  unfold row_field, getter. destruct (r_op g); try discriminate; destruct (r_fields g) as [|f1 [|f2 fs]]; try discriminate;
+    intros E _; inversion E; subst; reflexivity.
+Qed.
+Lemma setter_LI_field c s arg v p f : row_field s arg = Some f ->
+  match r_op s with OSet | OSetOrRemove | OSetParam => true | _ => false end = true ->
+  setter c LI s arg v p = match encode (r_op s) (r_codec s) v with
+                          | Some (Some raw) => Ok (l_set p f raw)
+                          | Some None => match r_op s with OSetParam => Err 9%N | _ => Ok (l_remove p f) end
+                          | None => Err 9%N
+                          end.
+Proof.
+  unfold row_field, setter. destruct (r_op s); try discriminate; destruct (r_fields s) as [|f1 [|f2 fs]]; try discriminate;
+    intros E _; inversion E; subst; cbn [p_set p_remove LI]; destruct (encode _ (r_codec s) v) as [[raw|]|]; reflexivity.
+Qed.
+
+Lemma pair_ok_inv g s arg : pair_ok g s arg = true ->
+  exists f, row_field g arg = Some f /\ row_field s arg = Some f /\
+    match r_op g with OGet | OGetParam => true | _ => false end = true /\
+    match r_op s with OSet | OSetOrRemove | OSetParam => true | _ => false end = true /\
+    rt_law (r_codec g) (r_codec s) = true /\ op_ok (r_codec g) (r_op s) (r_codec s) = true.
+Proof.
+  unfold pair_ok. destruct (row_field g arg) as [f|]; [|discriminate]. destruct (row_field s arg) as [f'|]; [|discriminate].
+  intros H. repeat (apply andb_true_iff in H; destruct H as [H ?]). apply str_eqb_eq in H. subst f'.
+  exists f. repeat split; assumption.
+Qed.
+
+(* removing is only ever asked of set-or-remove rows *)
+Lemma encode_none_op op cd v : encode op cd v = Some None -> op = OSetOrRemove.
+Proof.
+  destruct op; try reflexivity; cbn [encode]; destruct (enc cd v); discriminate.
+Qed.
+
+(* THE PAIR THEOREM on the list model *)
+Theorem pair_list c g s arg v p :
+  pair_ok g s arg = true -> valid_value c (r_codec g) (r_op s) (r_codec s) v = true ->
+  exists f p' raw, row_field g arg = Some f /\ row_field s arg = Some f /\
+    encode (r_op s) (r_codec s) v = Some raw /\
+    setter c LI s arg v p = Ok p' /\
+    p' = match raw with Some t => l_set p f t | None => l_remove p f end /\
+    getter c LI g arg p' = Ok (expect (r_codec g) (r_op s) (r_codec s) v) /\
+    l_remove p' f = l_remove p f /\
+    count_key f p' = match raw with Some _ => Nat.max 1 (count_key f p) | None => 0 end.
+Proof.
+  intros Hp Hv. destruct (pair_ok_inv g s arg Hp) as (f & Fg & Fs & Og & Os & Hr & Ho).
+  destruct (codec_roundtrip c _ _ _ v Hr Ho Hv) as (raw & E1 & E2).
+  exists f, (match raw with Some t => l_set p f t | None => l_remove p f end), raw.
+  split; [exact Fg|]. split; [exact Fs|]. split; [exact E1|]. split.
+  - rewrite (setter_LI_field c s arg v p f Fs Os), E1. destruct raw; [reflexivity|].
+    rewrite (encode_none_op _ _ _ E1). reflexivity.
+  - split; [reflexivity|]. split.
+    + rewrite (getter_LI_field c g arg _ f Fg Og). destruct raw as [t|].
+      * rewrite l_get_set_same. exact E2.
+      * rewrite (proj1 (l_remove_spec p f)). exact E2.
+    + destruct raw as [t|]; split; [apply l_set_others|apply l_set_count|apply l_remove_idem|apply l_remove_count].
+Qed.
+
+(* ... and on the paragraph tree: every child of the PARAGRAPH node other than the field's own
+   entry is untouched (comments, other entries), or the entry is appended after the last line was
+   terminated *)
+Theorem pair_tree c g s arg v cs :
+  pair_ok g s arg = true -> valid_value c (r_codec g) (r_op s) (r_codec s) v = true ->
+  exists f cs' raw, row_field s arg = Some f /\ encode (r_op s) (r_codec s) v = Some raw /\
+    setter c TI s arg v cs = Ok cs' /\
+    getter c TI g arg cs' = Ok (expect (r_codec g) (r_op s) (r_codec s) v) /\
+    pitems cs' = match raw with Some t => l_set (pitems cs) f t | None => l_remove (pitems cs) f end /\
+    l_remove (pitems cs') f = l_remove (pitems cs) f /\
+    count_key f (pitems cs') = match raw with Some _ => Nat.max 1 (count_key f (pitems cs)) | None => 0 end /\
+    match raw with
+    | Some t => (exists X e Y, cs = X ++ e :: Y /\ entry_has_key f e = true /\ cs' = X ++ entry_new f t :: Y) \/
+                cs' = ensure_nl_list cs ++ [entry_new f t]
+    | None => cs' = filter (fun e => negb (entry_has_key f e)) cs
+    end.
+Proof.
+  intros Hp Hv. destruct (pair_list c g s arg v (pitems cs) Hp Hv) as (f & p' & raw & Fg & Fs & E1 & E2 & E3 & E4 & E5 & E6).
+  destruct (pair_ok_inv g s arg Hp) as (f0 & Fg0 & Fs0 & Og & Os & Hr & Ho). rewrite Fs in Fs0. inversion Fs0; subst f0. clear Fs0 Fg0.
+  pose proof (setter_refines TI pitems TI_refines c s arg v cs) as Rs. rewrite E2 in Rs.
+  destruct (setter c TI s arg v cs) as [cs'| | |] eqn:Es; try discriminate. cbn [rmap bind] in Rs. inversion Rs as [Rp].
+  exists f, cs', raw. split; [exact Fs|]. split; [exact E1|]. split; [reflexivity|]. split.
+  - rewrite (getter_refines TI pitems TI_refines). rewrite Rp. exact E4.
+  - rewrite Rp. split; [exact E3|]. split; [exact E5|]. split; [exact E6|].
+    (* the tree itself *)
+    clear - Es Fs Os E1. unfold setter, row_field in *.
+    destruct (r_op s); try discriminate; destruct (r_fields s) as [|f1 [|f2 fs]]; try discriminate; inversion Fs; subst;
+      rewrite E1 in Es; destruct raw as [t|]; inversion Es; subst; cbn [p_set p_remove TI];
+      try apply para_set_frame; try reflexivity.
+Qed.
+
+(* clearing: after a setter that removes, the field is gone and nothing else changed *)
+Theorem clear_tree c g s arg v cs :
+  pair_ok g s arg = true -> valid_value c (r_codec g) (r_op s) (r_codec s) v = true ->
+  encode (r_op s) (r_codec s) v = Some None ->
+  exists f, row_field s arg = Some f /\
+    setter c TI s arg v cs = Ok (para_remove cs f) /\
+    Deb822Parse.get (Node PARAGRAPH (para_remove cs f)) f = None /\
+    pitems (para_remove cs f) = l_remove (pitems cs) f /\
+    getter c TI g arg (para_remove cs f) = Ok (expect (r_codec g) (r_op s) (r_codec s) v).
+Proof.
+  intros Hp Hv He. destruct (pair_tree c g s arg v cs Hp Hv) as (f & cs' & raw & Fs & E1 & E2 & E3 & E4 & _ & _ & E7).
+  rewrite He in E1. inversion E1; subst raw. exists f. split; [exact Fs|].
+  assert (cs' = para_remove cs f) by exact E7. subst cs'. unfold para_remove in *. split; [exact E2|]. split.
+  - rewrite tree_get_l_get, E4. apply l_remove_spec.
+  - split; [exact E4|exact E3].
+Qed.
+
+(* ---- sequences of setters ---- *)
+Definition op_field (o : row * str * value) : option str := row_field (fst (fst o)) (snd (fst o)).
+Definition op_plain (o : row * str * value) : bool :=
+  match r_op (fst (fst o)) with OSet | OSetOrRemove | OSetParam => true | _ => false end.
+Definition written (ops : list (row * str * value)) : list str :=
+  flat_map (fun o => match op_field o with Some f => [f] | None => [] end) ops.
+
+Lemma mem_str_true x l : mem_str x l = true <-> In x l.
+Proof.
+  unfold mem_str. rewrite existsb_exists. split.
+  - intros (y & Hy & E). apply str_eqb_eq in E. subst. exact Hy.
+  - intros H. exists x. split; [exact H|apply str_eqb_refl].
+Qed.
+
+Lemma strip_l_set ks p k v : In k ks -> strip ks (l_set p k v) = strip ks p.
+Proof.
+  intros Hk. apply mem_str_true in Hk. unfold strip.
+  destruct (l_set_spec p k v) as [(a & x & b & E1 & E2 & E3)|[E1 E2]].
+  - rewrite E3, E1, !filter_app. cbn [filter fst]. rewrite Hk. reflexivity.
+  - rewrite E2, filter_app. cbn [filter fst]. rewrite Hk. cbn [negb]. apply app_nil_r.
+Qed.
+Lemma strip_l_remove ks p k : In k ks -> strip ks (l_remove p k) = strip ks p.
+Proof.
+  intros Hk. apply mem_str_true in Hk. unfold strip, l_remove. induction p as [|[n v] r IH]; [reflexivity|].
+  cbn [filter fst]. destruct (str_eqb n k) eqn:E; cbn [negb].
+  - apply str_eqb_eq in E. subst n. rewrite Hk. cbn [negb]. exact IH.
+  - cbn [filter fst]. rewrite IH. reflexivity.
+Qed.
+
+Lemma strip_cons f ks q : strip (f :: ks) q = l_remove (strip ks q) f.
+Proof.
+  unfold strip, l_remove. induction q as [|[n x] q IH]; [reflexivity|]. cbn [filter fst].
+  change (mem_str n (f :: ks)) with (str_eqb n f || mem_str n ks).
+  destruct (str_eqb n f) eqn:E1, (mem_str n ks) eqn:E2; cbn [orb negb filter fst]; rewrite ?E1; cbn [negb]; rewrite ?IH; reflexivity.
+Qed.
+
+(* one plain setter: what it does to the list *)
+Lemma setter_plain_step c s arg v p p' f : row_field s arg = Some f ->
+  match r_op s with OSet | OSetOrRemove | OSetParam => true | _ => false end = true ->
+  setter c LI s arg v p = Ok p' ->
+  (forall ks, In f ks -> strip ks p' = strip ks p) /\
+  (forall k, str_eqb f k = false -> l_get p' k = l_get p k).
+Proof.
+  intros Fs Os E. rewrite (setter_LI_field c s arg v p f Fs Os) in E.
+  destruct (encode (r_op s) (r_codec s) v) as [[raw|]|]; try discriminate.
+  - inversion E; subst. split; [intros ks Hk; apply strip_l_set; exact Hk|intros k Hk; apply l_get_set_other; exact Hk].
+  - destruct (r_op s); try discriminate; inversion E; subst;
+      (split; [intros ks Hk; apply strip_l_remove; exact Hk|intros k Hk; apply l_get_remove_other; rewrite str_eqb_sym; exact Hk]).
+Qed.
+
+(* fields that no setter of the sequence names keep name, value and order; a field's value is
+   decided by the last setter naming it *)
+Theorem run_setters_frame c ops : forall p p',
+  forallb op_plain ops = true -> Forall (fun o => op_field o <> None) ops ->
+  run_setters c LI ops p = Ok p' ->
+  strip (written ops) p' = strip (written ops) p /\
+  (forall k, ~ In k (written ops) -> l_get p' k = l_get p k).
+Proof.
+  induction ops as [|[[s arg] v] r IH]; intros p p' Hpl Hf E.
+  - cbn in E. inversion E. split; reflexivity.
+  - cbn [run_setters] in E. destruct (setter c LI s arg v p) as [p1| | |] eqn:Es; try discriminate.
+    cbn [forallb] in Hpl. apply andb_true_iff in Hpl. destruct Hpl as [Hs Hr]. inversion Hf as [|o l Ho Hl]; subst.
+    unfold op_field in Ho. cbn [fst snd] in Ho. destruct (row_field s arg) as [f|] eqn:Fs; [|congruence].
+    destruct (setter_plain_step c s arg v p p1 f Fs Hs Es) as [S1 S2].
+    destruct (IH p1 p' Hr Hl E) as [I1 I2].
+    assert (W : written ((s, arg, v) :: r) = f :: written r) by (unfold written; cbn [flat_map]; unfold op_field; cbn [fst snd]; rewrite Fs; reflexivity).
+    rewrite W. split.
+    + (* strip (f :: ks) = strip ks after removing f: go through the definitions *)
+      assert (G : forall q, strip (f :: written r) q = l_remove (strip (written r) q) f) by (intros q; apply strip_cons).
+      rewrite !G, I1. rewrite <- !G. apply S1. left. reflexivity.
+    + intros k Hk. rewrite I2 by (intro X; apply Hk; right; exact X). apply S2.
+      destruct (str_eqb f k) eqn:E1; [|reflexivity]. apply str_eqb_eq in E1. subst. exfalso. apply Hk. left. reflexivity.
+Qed.
+
+(* the sequence theorem: all setters valid pairs; then every getter whose field is not written
+   again later returns the value of that setter *)
+Theorem run_setters_last c a g s arg v b p :
+  pair_ok g s arg = true -> valid_value c (r_codec g) (r_op s) (r_codec s) v = true ->
+  forallb op_plain b = true -> Forall (fun o => op_field o <> None) b ->
+  (forall f, row_field s arg = Some f -> ~ In f (written b)) ->
+  forall p1 p', run_setters c LI a p = Ok p1 -> run_setters c LI ((s, arg, v) :: b) p1 = Ok p' ->
+  getter c LI g arg p' = Ok (expect (r_codec g) (r_op s) (r_codec s) v).
+Proof.
+  intros Hp Hv Hb Hf Hn p1 p' _ E. cbn [run_setters] in E.
+  destruct (pair_list c g s arg v p1 Hp Hv) as (f & p2 & raw & Fg & Fs & _ & E2 & _ & E4 & _).
+  rewrite E2 in E. destruct (run_setters_frame c b p2 p' Hb Hf E) as [_ I2].
+  destruct (pair_ok_inv g s arg Hp) as (f0 & Fg0 & _ & Og & _).
+  rewrite (getter_LI_field c g arg p' f Fg Og), (I2 f (Hn f Fs)), <- (getter_LI_field c g arg p2 f Fg Og). exact E4.
+Qed.
